@@ -676,6 +676,11 @@ func (w *W) storeTo(fr *frame, ins ssa.Instruction, addr, v Value) {
 			w.traceAccess("W", p)
 		}
 		w.assign(p, v)
+		if w.traceDeep {
+			if name, ok := w.traced[p]; ok {
+				w.traceEscape(v, name, 0)
+			}
+		}
 		return
 	case *SymPtr:
 		w.symStore(p, v)
